@@ -196,6 +196,27 @@ var c19Damage = []func(r *fw.Rand, s string) string{
 }
 
 func c19Input(r *fw.Rand) string {
+	if r.P(1, 200) {
+		// very long lines (around and beyond 64 KiB) in multi-line inputs, the error on or after them
+		n := fw.PickT(r, []int{300, 4096, 65000, 65535, 65536, 70000})
+		fill := r.Pick([]string{"a", "a", " ", "中"})
+		if fill == "中" {
+			n /= 3
+		}
+		long := strings.Repeat(fill, n)
+		switch r.Intn(5) {
+		case 0:
+			return "[ \"" + long + "\",\n  1 + # ]"
+		case 1:
+			return "[ 1,\n  \"" + long + "\" # ]"
+		case 2:
+			return "x = 1\n'" + long + "' )\n2"
+		case 3:
+			return "1 +\n2 + // " + long + "\n # 3"
+		default:
+			return "'" + long + "'\n\n + ] 1\r\n2"
+		}
+	}
 	switch r.Intn(12) {
 	case 0:
 		return ""
@@ -247,7 +268,15 @@ func c19Parse(lang int, in string) (string, any) {
 func c19Seq(w *fw.W, idx int, r *fw.Rand) {
 	in := c19Input(r)
 	lang := r.Intn(3)
-	desc := fmt.Sprintf("lang=%d input=%q", lang, in)
+	// a host may also have used the package-level setting; a VM's own setting (including
+	// 0 = bilingual) decides the language of its messages
+	glob := r.Intn(3)
+	ds.SetParseErrorLanguage(glob)
+	defer ds.SetParseErrorLanguage(0)
+	desc := fmt.Sprintf("lang=%d packageLevelLang=%d input=%q", lang, glob, trunc(in, 400))
+	if len(in) > 400 {
+		desc += fmt.Sprintf(" (input of %d bytes, sha %s)", len(in), fw.Hash64(in))
+	}
 	w.Begin(idx, desc)
 	msg, pv := c19Parse(lang, in)
 	w.Eval(1)
